@@ -49,6 +49,9 @@ pub enum Mode {
     AllValidation,
     /// id % 3: Ok, Io, Validation
     Mixed,
+    /// every entry accepted / rejected as invalid, and every `flush` of the stream fails
+    AllOkFlushFails,
+    AllValidationFlushFails,
 }
 
 #[derive(Clone, Copy, Debug, PartialEq, Eq)]
@@ -115,9 +118,9 @@ impl EntryIoStream for ScriptStream {
             return Ok(());
         };
         let res = match c.mode {
-            Mode::AllOk => Res::Ok,
+            Mode::AllOk | Mode::AllOkFlushFails => Res::Ok,
             Mode::AllIo => Res::Io,
-            Mode::AllValidation => Res::Val,
+            Mode::AllValidation | Mode::AllValidationFlushFails => Res::Val,
             Mode::Mixed => [Res::Ok, Res::Io, Res::Val][(id % 3) as usize],
         };
         c.log.borrow_mut().push(Log::Next(id, res));
@@ -127,7 +130,9 @@ impl EntryIoStream for ScriptStream {
         }
         match res {
             Res::Ok => Ok(()),
-            Res::Io => Err(IoStreamError::Io(std::io::Error::other("scripted"))),
+            // (the kind of an I/O error is the stream's business: the queue treats them alike,
+            // also those that elsewhere invite a retry)
+            Res::Io => Err(IoStreamError::Io(std::io::Error::new([std::io::ErrorKind::Other, std::io::ErrorKind::WouldBlock, std::io::ErrorKind::Interrupted, std::io::ErrorKind::TimedOut][(id % 4) as usize], "scripted"))),
             Res::Val => Err(IoStreamError::Validation(ValidationError::invalid("scripted"))),
         }
     }
@@ -145,6 +150,9 @@ impl EntryIoStream for ScriptStream {
                 c.arrived.borrow_mut().push(r);
             }
             _ => {}
+        }
+        if matches!(c.mode, Mode::AllOkFlushFails | Mode::AllValidationFlushFails) {
+            return Err(std::io::Error::other("scripted flush failure"));
         }
         Ok(())
     }
@@ -353,6 +361,19 @@ impl World {
                     }
                 }
                 seen.push(*id);
+            }
+        }
+        // nothing nobody appended reaches the stream, except the in-band error report after a
+        // validation failure
+        let mut rejected_before = false;
+        for l in log.iter() {
+            match l {
+                Log::Next(_, Res::Val) => rejected_before = true,
+                Log::Report if !rejected_before => {
+                    out.push(("C01", "writer:entry-nobody-appended".into(), "the stream was handed an error-report entry although no entry had been rejected as invalid before".to_string()));
+                    break;
+                }
+                _ => {}
             }
         }
         let overflows = self.counts.0.lock().unwrap().get("metrique_queue_overflows").copied().unwrap_or(0);
@@ -707,6 +728,8 @@ pub fn run(prop: &'static str) {
     let mut jobs: Vec<(usize, Mode, bool)> = caps.iter().flat_map(|c| modes.iter().map(move |m| (*c, *m, false))).collect();
     // builder option: a sub-second shutdown timeout (matters where one drain pass cannot empty the queue)
     jobs.extend([33usize, 40].iter().flat_map(|c| modes.iter().map(move |m| (*c, *m, true))));
+    // a stream whose flush always fails
+    jobs.extend([2usize, 33].iter().flat_map(|c| [Mode::AllOkFlushFails, Mode::AllValidationFlushFails].into_iter().map(move |m| (*c, m, false))));
     let states = par::for_each_index(jobs.len() as u64, 1, St::default, |st, ji| {
         let (cap, mode, short) = jobs[ji as usize];
         let mut seen: HashMap<_, usize> = HashMap::new();
